@@ -1,3 +1,28 @@
-From Verif Require Import Base.
-Theorem placeholder : True. Proof. exact I. Qed.
-Print Assumptions placeholder.
+(* C11 — a closure argument runs on the caller's side with the callee's arguments.
+   Each proxy invocation is an ordinary call of the closure entry point (C01's theorem applies to
+   it); what is specific to closures is the conversion of the generically decoded arguments to
+   the closure's parameter types (Convert.v).  Proved: the conversion is total on the simple types
+   of the property (numbers, booleans, strings, slices of those — nil, empty and nested included)
+   and value preserving on integers. *)
+From Verif Require Import Base Convert ConvertProofs.
+From Coq Require Import ZArith.
+
+Theorem convert_simple_total :
+  forall src t, shaped src t = true -> exists y, convert_value fixed src t = COk y.
+Proof. exact convert_total_lemma. Qed.
+Print Assumptions convert_simple_total.
+
+Theorem convert_int_preserved :
+  forall k z, convert_value fixed (GNum k (2 * z)) TInt = COk (VInt z).
+Proof. exact convert_int_identity. Qed.
+Print Assumptions convert_int_preserved.
+
+Theorem nil_slice_is_accepted :
+  forall t, convert_value fixed GNil (TSlice t) = COk (VSlice t []).
+Proof. exact convert_nil_slice. Qed.
+Print Assumptions nil_slice_is_accepted.
+
+(* the tree as found panics on a nil slice argument (D7), which terminates the link *)
+Theorem D7_refuted : exists src t, shaped src t = true /\ convert_value legacy src t = CPanic.
+Proof. exists GNil, (TSlice TInt). split; reflexivity. Qed.
+Print Assumptions D7_refuted.
